@@ -245,7 +245,14 @@ def run(rep, tier):
                 sa, sb = S("%s::%s" % (T + enum_name, a_)), S("%s::%s" % (T + enum_name, b_))
                 ENUM_SYMS.add(sa)
                 ENUM_SYMS.add(sb)
-                fo = Fold(f, inline=lambda q, g_: q.startswith(UC + "get"))
+                def tab_hook(fold, n, env):
+                    cal = n.get("callee") or ""
+                    if n.get("k") == "mcall" and cal.startswith(UC + "get") and cal.split("::")[-1] in tables and len(n.get("args", [])) == 1:
+                        ev_ = fold.ev(n["args"][0], env)
+                        if ev_ in ENUM_SYMS:
+                            return sympy_rat(value_of(cal.split("::")[-1], str(ev_).split("::")[-1]))
+                    return NotImplemented
+                fo = Fold(f, call=tab_hook, inline=lambda q, g_: q.startswith(UC) and not q.endswith("::convert") and not q.split("::")[-1].startswith("get"))
                 fo.run({f.j["params"][0]["decl"]: sa, f.j["params"][1]["decl"]: sb})
                 if len(fo.returns) != 1 or not getattr(fo.returns[0][0], "is_number", False):
                     raise AnalysisBroken("convert(%s): %s -> %s does not fold to a constant" % (enum_name, a_, b_))
